@@ -30,6 +30,8 @@ Inductive get_res :=
 | GNode (ino : N) (is_gzipped : bool) (auto_gzip : bool).
 
 Definition DOT_GZ : bytes := [46; 103; 122].
+(* the harness's code for ENAMETOOLONG: path + ".gz" exceeds NAME_MAX / PATH_MAX, so the sibling cannot exist *)
+Definition K_NAMETOOLONG : N := 5.
 
 Section WithFs.
 Variable openat : bytes -> open_res.
@@ -51,6 +53,30 @@ Definition fsdir_get (auto_gzip : bool) (path : bytes) (accept_encoding : option
         match openat gz with
         | OOpened ino false => Ok (GNode ino true auto_gzip, [gz])
         | OOpened _ true => Ok (try_plain [gz])               (* .gz directories are ignored *)
+        | ONotFound => Ok (try_plain [gz])
+        | OError k => if k =? K_NAMETOOLONG then Ok (try_plain [gz])       (* fix F11 *)
+                      else Ok (GError k, [gz])
+        end
+      else Ok (try_plain [])
+  end.
+
+(* the pinned tree: every error of the .gz probe other than NotFound was returned *)
+Definition fsdir_get_legacy (auto_gzip : bool) (path : bytes) (accept_encoding : option bytes) : M (get_res * list bytes) :=
+  match validate_path path with
+  | Some e => Ok (GInvalid e, [])
+  | None =>
+      let! sg := should_gzip accept_encoding in
+      let try_plain (calls : list bytes) : get_res * list bytes :=
+        match openat path with
+        | OOpened ino _ => (GNode ino false auto_gzip, calls ++ [path])
+        | ONotFound => (GNotFound, calls ++ [path])
+        | OError k => (GError k, calls ++ [path])
+        end in
+      if auto_gzip && sg then
+        let gz := path ++ DOT_GZ in
+        match openat gz with
+        | OOpened ino false => Ok (GNode ino true auto_gzip, [gz])
+        | OOpened _ true => Ok (try_plain [gz])
         | ONotFound => Ok (try_plain [gz])
         | OError k => Ok (GError k, [gz])
         end
